@@ -231,7 +231,7 @@ def run_case(rec, case):
 
 def plan(tier, seed):
     n = 16
-    per = 6000 if tier == 'thorough' else 900
+    per = 30000 if tier == 'thorough' else 900
     return [{'seed': seed, 'shard': s, 'n': per} for s in range(n)]
 
 
